@@ -616,6 +616,10 @@ func (sc *vScn) op(w []string) {
 // restart: all connections are gone and nothing is in memory; same session numbers come back as new connections
 func (sc *vScn) restart() {
 	for i, vs := range sc.sess {
+		// Session.purgeChannels (for len(s.send) > 0 { <-s.send }) races with this connection's drain loop for the
+		// last queued frame and then blocks for ever (a real defect of tinode, see findings/C14.md): let the loop
+		// empty the queue first.  The previous cleanUp queues {pres off} on the remaining connections.
+		vWaitQuiet([]string{sc.topic})
 		vs.s.cleanUp(true)
 		<-vs.done
 		_ = i
@@ -633,6 +637,7 @@ func (sc *vScn) restart() {
 func (sc *vScn) finish() {
 	memverif.ClearFault()
 	for _, vs := range sc.sess {
+		vWaitQuiet([]string{sc.topic})      // see restart(): purgeChannels races with the drain loop
 		vs.s.cleanUp(true)
 		<-vs.done
 	}
